@@ -16,7 +16,8 @@ RULE = ("cases = scripts of generated CREATE TABLE statements (abstract schema -
         "subsets x orders (<=4 of NULL/NOT NULL, DEFAULT, PRIMARY KEY, UNIQUE, REFERENCES) x types x column "
         "position, then seeded random schemas (1..8 tables x 1..12 columns) in canonical / one-column-per-line / "
         "free layouts, then stress tables (50..800 columns) and scripts (50..200 tables). A case is non-trivial "
-        "when the reference model compares at least one column carrying a size or an option; distinct = distinct DDL text.")
+        "when the reference model compares at least one column carrying a size or an option; distinct = distinct DDL text."
+        " Added after seeded defects: parenthesised / decimal defaults, 25% of column names and 12% of table names from the calibrated tricky vocabulary (vf.gen.vocab), zero sizes, CRLF scripts, signed-decimal defaults as a known-finding class.")
 ASSUMPTIONS = ["only the core column fragment named in the property is generated (DESIGN 5)",
                "column names are plain identifiers here (C06 owns hostile names), literals are clean (C07 owns hostile ones)",
                "reporting conventions tolerated: {'columns':[x]} == {'column':x} in references, DEFAULT null == 'NULL'"]
